@@ -759,4 +759,346 @@ Proof.
   apply Hwl; auto.
 Qed.
 
+
+(* ---- IF ---- *)
+Lemma sim_if g f cur pre post st0 d c th el n rest :
+  sim_at g -> (f < g)%nat ->
+  code = pre ++ cblock (TIf c th el n :: rest) ++ post -> noend pre -> lastline pre 65535 = cur ->
+  ifs_ok_block (TIf c th el n :: rest) = true -> targets_ok (TIf c th el n :: rest) ->
+  onerr d = 0 ->
+  sim_ok code st0 (length pre + length (cblock (TIf c th el n :: rest))) (S f)
+    (run code (S f) (at_state st0 d (length pre)))
+    (exec subs (S g) (S f) cur (TIf c th el n :: rest) d).
+Proof.
+  intros IH Hfg Hc Hne Hl Hifs Htg Hd.
+  pose proof (sim_cont g _ rest pre post st0 cur IH Hc Hne Hl Hifs Htg) as Hcont.
+  set (P := (length pre + length (cblock (TIf c th el n :: rest)))%nat) in *.
+  set (i := length pre) in *.
+  set (k := (S i + length (cblock th))%nat).
+  set (l := (S k + length (cblock el))%nat).
+  assert (Hlen : (i + length (cstmt (TIf c th el n)) = S l)%nat).
+  { rewrite cstmt_if. simpl. rewrite app_length. simpl. rewrite app_length. simpl. unfold l, k. lia. }
+  rewrite Hlen in Hcont. change (line_after_stmt (TIf c th el n) cur) with n in Hcont.
+  assert (Hin : inline_block th = true /\ inline_block el = true).
+  { simpl in Hifs. apply andb_true_iff in Hifs as [H _]. apply andb_true_iff in H. exact H. }
+  destruct Hin as [Hin_t Hin_e].
+  assert (Hc1 : code = pre ++ SIf c None :: (cblock th ++ SElse None :: cblock el ++ SLine n :: cblock rest ++ post)).
+  { rewrite Hc, cblock_cons, cstmt_if. simpl. rewrite <- !app_assoc. simpl. rewrite <- !app_assoc. reflexivity. }
+  assert (Hc2 : code = (pre ++ [SIf c None]) ++ cblock th ++ (SElse None :: cblock el ++ SLine n :: cblock rest ++ post)).
+  { rewrite Hc1, <- app_assoc. reflexivity. }
+  assert (Hc3 : code = (pre ++ SIf c None :: cblock th) ++ SElse None :: (cblock el ++ SLine n :: cblock rest ++ post)).
+  { rewrite Hc1, <- app_assoc. reflexivity. }
+  assert (Hc4 : code = (pre ++ SIf c None :: cblock th ++ [SElse None]) ++ cblock el ++ (SLine n :: cblock rest ++ post)).
+  { rewrite Hc1, <- !app_assoc. simpl. rewrite <- !app_assoc. reflexivity. }
+  assert (Hc5 : code = (pre ++ SIf c None :: cblock th ++ SElse None :: cblock el) ++ SLine n :: cblock rest ++ post).
+  { rewrite Hc1, <- !app_assoc. simpl. rewrite <- !app_assoc. reflexivity. }
+  assert (Hk : length (pre ++ SIf c None :: cblock th) = k).
+  { rewrite app_length. simpl. unfold k, i. lia. }
+  assert (Hk' : length (pre ++ SIf c None :: cblock th ++ [SElse None]) = S k).
+  { rewrite app_length. simpl. rewrite app_length. simpl. unfold k, i. lia. }
+  assert (Hl' : length (pre ++ SIf c None :: cblock th ++ SElse None :: cblock el) = l).
+  { rewrite app_length. simpl. rewrite app_length. simpl. unfold l, k, i. lia. }
+  assert (Hnth_i : nth_error code i = Some (SIf c None)) by (rewrite Hc1; apply nth_error_app_at).
+  assert (Hnth_k : nth_error code k = Some (SElse None)) by (rewrite Hc3, <- Hk; apply nth_error_app_at).
+  assert (Hnth_l : nth_error code l = Some (SLine n)) by (rewrite Hc5, <- Hl'; apply nth_error_app_at).
+  assert (Hline_i : line_of code i = cur).
+  { eapply line_here; eauto; intros; discriminate. }
+  assert (Hfe : find_else_from (skipn (S i) code) (S i) 0 = ElseAt k None).
+  { rewrite Hc1. unfold i. rewrite skipn_app_S. rewrite (proj2 find_else_inline) by assumption. reflexivity. }
+  assert (Heol : eol code (S k) = l).
+  { unfold eol. rewrite Hc3, <- Hk, skipn_app_S, Hk. rewrite (proj2 eol_inline) by assumption. reflexivity. }
+  (* the header of the next line, then the rest *)
+  assert (Hline_step : forall f3 d2, (f3 < S g)%nat -> onerr d2 = 0 ->
+     sim_ok code st0 P f3 (run code f3 (at_state st0 d2 l))
+       (tick f3 (fun f4 => exec subs g f4 n rest d2))).
+  { intros f3 d2 Hf3 Hd2. apply sim_ok_tick with (st' := at_state st0 d2 (S l)).
+    - rewrite (step_at code _ (SLine n)) by exact Hnth_l. reflexivity.
+    - intros f4 ->. apply Hcont; auto. lia. }
+  rewrite run_S, (step_at code _ (SIf c None)) by exact Hnth_i.
+  rewrite exec_if. cbv zeta. rewrite at_state_pc, at_state_ds. fold i.
+  apply sim_with_val; auto. intros z.
+  destruct (negb (z =? 0)).
+  - (* THEN branch, then the ELSE statement skips to the end of the line *)
+    cbn [lhs_of]. rewrite pre_out_nil.
+    change (set_pc (at_state st0 d i) (S i)) with (at_state st0 d (S i)).
+    eapply sim_ok_weaken with (fuel := f); [lia|].
+    apply sim_ok_bseq with (st1 := st0) (pos1 := k).
+    + pose proof (IH f cur th d (pre ++ [SIf c None]) _ st0 Hfg Hc2) as B.
+      rewrite app_length in B. simpl in B. replace (length pre + 1)%nat with (S i) in B by (unfold i; lia).
+      fold k in B. apply B; auto.
+      * apply noend_app; [exact Hne|]. intros [H|[]]; discriminate.
+      * rewrite lastline_app, Hl. reflexivity.
+      * apply ifs_ok_of_inline. exact Hin_t.
+      * intros m Hm. apply Htg. simpl. apply in_or_app. left. apply in_or_app. left. exact Hm.
+    + intros f2 d2 Hf2 Hd2. apply sim_ok_tick with (st' := at_state st0 d2 l).
+      * rewrite (step_at code _ (SElse None)) by exact Hnth_k. cbv zeta. rewrite at_state_pc, Heol. reflexivity.
+      * intros f3 ->. apply Hline_step; auto. lia.
+  - (* ELSE branch *)
+    rewrite Hfe. cbn [lhs_of]. rewrite pre_out_nil.
+    change (set_pc (at_state st0 d i) (S k)) with (at_state st0 d (S k)).
+    eapply sim_ok_weaken with (fuel := f); [lia|].
+    apply sim_ok_bseq with (st1 := st0) (pos1 := l).
+    + pose proof (IH f cur el d _ _ st0 Hfg Hc4) as B.
+      rewrite Hk' in B. fold l in B. apply B; auto.
+      * apply noend_app; [exact Hne|]. intros [H|H]; [discriminate|].
+        apply in_app_or in H as [H|[H|[]]]; [revert H; apply noend_cblock | discriminate].
+      * change (SIf c None :: cblock th ++ [SElse None]) with ([SIf c None] ++ cblock th ++ [SElse None]).
+        rewrite !lastline_app, Hl. simpl. rewrite (proj2 lastline_cblock).
+        apply line_after_inline. exact Hin_t.
+      * apply ifs_ok_of_inline. exact Hin_e.
+      * intros m Hm. apply Htg. simpl. apply in_or_app. left. apply in_or_app. right. exact Hm.
+    + intros f2 d2 Hf2 Hd2. apply Hline_step; auto. lia.
+Qed.
+
+(* ---- GOSUB / ON..GOSUB: the call of subroutine n from statement i ---- *)
+Lemma sim_call g f cur st0 d P i n cont :
+  sim_at g -> (f < g)%nat -> find_sub subs n <> None -> onerr d = 0 ->
+  (forall f3 d2, (f3 < g)%nat -> onerr d2 = 0 ->
+     sim_ok code st0 P f3 (run code f3 (at_state st0 d2 (S i))) (cont f3 d2)) ->
+  exists js, find_line code n = Some js /\
+    sim_ok code st0 P f
+      (run code f (at_state (set_gosubs st0 (i :: gosubs st0)) d js))
+      (call_sub subs g f cur d cont n).
+Proof.
+  intros IH Hfg Hfound Hd Hcont. unfold call_sub.
+  destruct (find_sub subs n) as [body|] eqn:Efs; [|congruence].
+  destruct (Hsubs n body Efs) as (pre_s & post_s & Hc & Hne & Hfl & Hifs & Htg).
+  exists (length pre_s). split; [exact Hfl|].
+  set (st0g := set_gosubs st0 (i :: gosubs st0)).
+  set (js := length pre_s).
+  set (r := (S js + length (cblock body))%nat).
+  assert (Hc2 : code = (pre_s ++ [SLine n]) ++ cblock body ++ (SReturn None :: post_s)).
+  { rewrite Hc, <- app_assoc. reflexivity. }
+  assert (Hc3 : code = (pre_s ++ SLine n :: cblock body) ++ SReturn None :: post_s).
+  { rewrite Hc, <- app_assoc. reflexivity. }
+  assert (Hr : length (pre_s ++ SLine n :: cblock body) = r).
+  { rewrite app_length. simpl. unfold r, js. lia. }
+  assert (Hnth_js : nth_error code js = Some (SLine n)) by (rewrite Hc; apply nth_error_app_at).
+  assert (Hnth_r : nth_error code r = Some (SReturn None)) by (rewrite Hc3, <- Hr; apply nth_error_app_at).
+  apply sim_ok_tick with (st' := at_state st0g d (S js)).
+  - rewrite (step_at code _ (SLine n)) by exact Hnth_js. reflexivity.
+  - intros f1 ->.
+    apply sim_ok_bseq with (st1 := st0g) (pos1 := r).
+    + pose proof (IH f1 n body d (pre_s ++ [SLine n]) _ st0g ltac:(lia) Hc2) as B.
+      rewrite app_length in B. simpl in B. replace (length pre_s + 1)%nat with (S js) in B by (unfold js; lia).
+      fold r in B. apply B; auto.
+      * apply noend_app; [exact Hne|]. intros [H|[]]; discriminate.
+      * rewrite lastline_app. reflexivity.
+    + intros f2 d2 Hf2 Hd2. apply sim_ok_tick with (st' := at_state st0 d2 (S i)).
+      * rewrite (step_at code _ (SReturn None)) by exact Hnth_r. reflexivity.
+      * intros f3 ->. apply Hcont; auto. lia.
+Qed.
+
+
+(* ---- every statement ---- *)
+Theorem sim_all : forall g, sim_at g.
+Proof.
+  induction g as [|g IH]; intros fuel cur b d pre post st0 Hfg Hc Hne Hl Hifs Htg Hd; [lia|].
+  destruct b as [|s rest].
+  - rewrite exec_nil. simpl. rewrite Nat.add_0_r. split.
+    + unfold fin. rewrite pre_out_nil. reflexivity.
+    + intros f' d' t E. inversion E; subst. auto.
+  - destruct fuel as [|f].
+    + rewrite exec_fuel0. apply sim_ok_stop.
+    + assert (Hfg' : (f < g)%nat) by lia.
+      pose proof (sim_cont g s rest pre post st0 cur IH Hc Hne Hl Hifs Htg) as Hcont.
+      assert (Hc1 : code = pre ++ cstmt s ++ cblock rest ++ post).
+      { rewrite Hc, cblock_cons, <- app_assoc. reflexivity. }
+      destruct s as [n|e|v e|v a b0 s nm body|c body|c th el n|n|e ns].
+      * (* line header *)
+        simpl in Hc1. assert (Hn : nth_error code (length pre) = Some (SLine n)) by (rewrite Hc1; apply nth_error_app_at).
+        rewrite run_S, (step_at code _ (SLine n)) by exact Hn. rewrite exec_line.
+        cbn [lhs_of]. rewrite pre_out_nil.
+        change (set_pc _ _) with (at_state st0 d (S (length pre))).
+        simpl in Hcont. rewrite Nat.add_1_r in Hcont.
+        eapply sim_ok_weaken; [|apply Hcont; auto]. lia.
+      * (* PRINT *)
+        simpl in Hc1. assert (Hn : nth_error code (length pre) = Some (SPrint e)) by (rewrite Hc1; apply nth_error_app_at).
+        rewrite run_S, (step_at code _ (SPrint e)) by exact Hn. rewrite exec_print.
+        cbv zeta. rewrite at_state_pc, at_state_ds.
+        apply sim_with_val; auto.
+        { eapply line_here; eauto; intros; discriminate. }
+        intros z. cbn [lhs_of].
+        change (set_pc _ _) with (at_state st0 d (S (length pre))).
+        apply sim_ok_bout. simpl in Hcont. rewrite Nat.add_1_r in Hcont.
+        eapply sim_ok_weaken; [|apply Hcont; auto]. lia.
+      * (* LET *)
+        simpl in Hc1. assert (Hn : nth_error code (length pre) = Some (SLet v e)) by (rewrite Hc1; apply nth_error_app_at).
+        assert (Hline : line_of code (length pre) = cur) by (eapply line_here; eauto; intros; discriminate).
+        rewrite run_S, (step_at code _ (SLet v e)) by exact Hn. rewrite exec_let.
+        cbv zeta. rewrite at_state_pc, at_state_ds.
+        apply sim_with_val; auto.
+        intros z. destruct (in16 z).
+        -- cbn [lhs_of]. rewrite pre_out_nil.
+           change (set_pc _ _) with (at_state st0 (d_setv d v z) (S (length pre))).
+           simpl in Hcont. rewrite Nat.add_1_r in Hcont.
+           eapply sim_ok_weaken; [|apply Hcont; auto]. lia.
+        -- rewrite trap_untrapped by (left; exact Hd). rewrite Hline. apply sim_ok_stop.
+      * apply sim_for with (post := post); auto.
+      * apply sim_while with (post := post); auto.
+      * apply sim_if with (post := post); auto.
+      * (* GOSUB *)
+        simpl in Hc1. assert (Hn : nth_error code (length pre) = Some (SGosub n)) by (rewrite Hc1; apply nth_error_app_at).
+        rewrite run_S, (step_at code _ (SGosub n)) by exact Hn. rewrite exec_gosub.
+        cbv zeta. rewrite at_state_pc.
+        simpl in Hcont. rewrite Nat.add_1_r in Hcont.
+        destruct (sim_call g f cur st0 d _ (length pre) n _ IH Hfg'
+                    (Htg n ltac:(simpl; left; reflexivity)) Hd Hcont) as (js & Hfl & Hsim).
+        unfold jump. rewrite Hfl. cbn [lhs_of]. rewrite pre_out_nil.
+        eapply sim_ok_weaken; [|exact Hsim]. lia.
+      * (* ON .. GOSUB *)
+        simpl in Hc1.
+        assert (Hn : nth_error code (length pre) = Some (SOn e true ns)) by (rewrite Hc1; apply nth_error_app_at).
+        assert (Hline : line_of code (length pre) = cur) by (eapply line_here; eauto; intros; discriminate).
+        rewrite run_S, (step_at code _ (SOn e true ns)) by exact Hn. rewrite exec_ongosub.
+        cbv zeta. rewrite at_state_pc, at_state_ds.
+        simpl in Hcont. rewrite Nat.add_1_r in Hcont.
+        apply sim_with_int; auto. intros z Hz.
+        destruct (negb ((flow_on_lo <=? z) && (z <=? flow_on_hi))).
+        -- rewrite trap_untrapped by (left; exact Hd). rewrite Hline. apply sim_ok_stop.
+        -- destruct ((1 <=? z) && (z <=? Z.of_nat (length ns))) eqn:Esel.
+           ++ assert (Hin : In (nth (Z.to_nat (z - 1)) ns 0) ns).
+              { apply nth_In. lia. }
+              destruct (sim_call g f cur st0 d _ (length pre) (nth (Z.to_nat (z - 1)) ns 0) _ IH Hfg'
+                          (Htg _ ltac:(simpl; apply in_or_app; left; exact Hin)) Hd Hcont) as (js & Hfl & Hsim).
+              cbv zeta. unfold jump. rewrite Hfl. cbn [lhs_of]. rewrite pre_out_nil.
+              eapply sim_ok_weaken; [|exact Hsim]. lia.
+           ++ cbn [lhs_of]. rewrite pre_out_nil.
+              change (set_pc _ _) with (at_state st0 d (S (length pre))).
+              eapply sim_ok_weaken; [|apply Hcont; auto]. lia.
+Qed.
+
 End SimMain.
+
+(* ------------------------------------------------------------------ whole programs *)
+
+Lemma csubs_app a b : csubs (a ++ b) = csubs a ++ csubs b.
+Proof. induction a as [|x a IH]; simpl; [reflexivity|]. rewrite IH. unfold csub. simpl.
+  rewrite <- !app_assoc. reflexivity. Qed.
+
+Lemma noend_csubs l : noend (csubs l).
+Proof.
+  induction l as [|[n b] l IH]; simpl; [intros []|].
+  unfold csub. simpl. intros [H|H]; [discriminate|].
+  rewrite <- app_assoc in H. apply in_app_or in H as [H|H]; [revert H; apply noend_cblock|].
+  simpl in H. destruct H as [H|H]; [discriminate | exact (IH H)].
+Qed.
+
+Definition sub_lines (l : list (Z * list sstmt)) : list Z :=
+  flat_map (fun nb => fst nb :: lines_block (snd nb)) l.
+
+Lemma lines_csubs l m : In (SLine m) (csubs l) -> In m (sub_lines l).
+Proof.
+  induction l as [|[n b] l IH]; simpl; [auto|].
+  unfold csub. simpl. intros [H|H].
+  - inversion H. left. reflexivity.
+  - right. rewrite <- app_assoc in H. apply in_or_app. apply in_app_or in H as [H|H].
+    + left. apply (proj2 lines_cblock). exact H.
+    + simpl in H. destruct H as [H|H]; [discriminate|]. right. apply IH. exact H.
+Qed.
+
+Lemma find_sub_split subs n body : find_sub subs n = Some body ->
+  exists s1 s2, subs = s1 ++ (n, body) :: s2.
+Proof.
+  induction subs as [|[m b] subs IH]; simpl; [discriminate|].
+  destruct (m =? n) eqn:E; intros H.
+  - inversion H; subst. apply Z.eqb_eq in E. subst. exists [], subs. reflexivity.
+  - destruct (IH H) as (s1 & s2 & ->). exists ((m, b) :: s1), s2. reflexivity.
+Qed.
+
+Lemma NoDup_app_mid {A} (x : list A) a y : NoDup (x ++ a :: y) -> ~ In a x.
+Proof.
+  intros H Hin. apply NoDup_remove_2 in H. apply H. apply in_or_app. left. exact Hin.
+Qed.
+
+Section Whole.
+Variable p : sprog.
+Hypothesis Hwf : wf_prog p.
+
+Lemma subs_placed : forall n body, find_sub (p_subs p) n = Some body ->
+  exists pre post, compile_prog p = pre ++ SLine n :: cblock body ++ SReturn None :: post /\ noend pre /\
+    find_line (compile_prog p) n = Some (length pre) /\ ifs_ok_block body = true /\
+    (forall m, In m (targets_block body) -> find_sub (p_subs p) m <> None).
+Proof.
+  intros n body Hf. destruct Hwf as (Hnd & Hifs & Htg).
+  destruct (find_sub_split _ _ _ Hf) as (s1 & s2 & Hs).
+  assert (Hin : In body (all_blocks p)).
+  { unfold all_blocks. right. rewrite Hs, map_app. apply in_or_app. right. left. reflexivity. }
+  exists (cblock (p_main p) ++ SEnd :: csubs s1), (csubs s2 ++ [SEndProg]).
+  assert (Hcode : compile_prog p =
+      (cblock (p_main p) ++ SEnd :: csubs s1) ++ SLine n :: cblock body ++ SReturn None :: csubs s2 ++ [SEndProg]).
+  { unfold compile_prog. rewrite Hs, csubs_app. simpl. unfold csub. simpl.
+    rewrite <- !app_assoc. simpl. rewrite <- !app_assoc. reflexivity. }
+  assert (Hne : noend (cblock (p_main p) ++ SEnd :: csubs s1)).
+  { apply noend_app; [apply noend_cblock|]. intros [H|H]; [discriminate | revert H; apply noend_csubs]. }
+  split; [exact Hcode|]. split; [exact Hne|]. split; [|split].
+  - unfold find_line. rewrite Hcode. rewrite find_line_from_app; [reflexivity | exact Hne |].
+    (* n is introduced only once *)
+    intros H. unfold all_lines in Hnd. rewrite Hs in Hnd. unfold sub_lines in *.
+    rewrite flat_map_app in Hnd. simpl in Hnd. rewrite app_assoc in Hnd.
+    apply NoDup_app_mid in Hnd. apply Hnd.
+    apply in_app_or in H as [H|H].
+    + apply in_or_app. left. apply (proj2 lines_cblock). exact H.
+    + simpl in H. destruct H as [H|H]; [discriminate|].
+      apply in_or_app. right. apply lines_csubs. exact H.
+  - apply Hifs. exact Hin.
+  - intros m Hm. apply (Htg body m Hin Hm).
+Qed.
+
+(* the machine on the laid-out program = the reference semantics, for every fuel *)
+Theorem refines fuel : run_program (compile_prog p) fuel = exec_prog p fuel.
+Proof.
+  unfold run_program, exec_prog.
+  destruct Hwf as (Hnd & Hifs & Htg).
+  pose proof (sim_all (compile_prog p) (p_subs p) subs_placed (S fuel) fuel 65535 (p_main p) init_ds []
+                (SEnd :: csubs (p_subs p) ++ [SEndProg]) (init_at 0)) as H.
+  destruct H as [H _]; auto.
+  - intros [].
+  - apply Hifs. left. reflexivity.
+  - intros m Hm. apply (Htg (p_main p) m); [left; reflexivity | exact Hm].
+  - change (at_state (init_at 0) init_ds (length [])) with (init_at 0) in H. rewrite H.
+    destruct (exec (p_subs p) (S fuel) fuel 65535 (p_main p) init_ds) as [f d t|t o]; [|reflexivity].
+    unfold fin. simpl length. rewrite Nat.add_0_l.
+    destruct f as [|f].
+    + unfold pre_out. simpl. rewrite app_nil_r. reflexivity.
+    + rewrite run_S.
+      assert (Hn : nth_error (compile_prog p) (pc (at_state (init_at 0) d (length (cblock (p_main p))))) = Some SEnd).
+      { unfold compile_prog. apply nth_error_app_at. }
+      rewrite (step_at _ _ SEnd Hn). unfold pre_out. simpl. rewrite app_nil_r. reflexivity.
+Qed.
+
+End Whole.
+
+(* ------------------------------------------------------------------ a decision procedure for wf_prog *)
+
+Fixpoint memb (x : Z) (l : list Z) : bool :=
+  match l with [] => false | y :: r => (x =? y) || memb x r end.
+Fixpoint nodupb (l : list Z) : bool :=
+  match l with [] => true | x :: r => negb (memb x r) && nodupb r end.
+
+Lemma memb_in x l : memb x l = true <-> In x l.
+Proof.
+  induction l as [|y l IH]; simpl; [split; [discriminate | intros []]|].
+  rewrite orb_true_iff, IH, Z.eqb_eq. split; intros [H|H]; auto.
+Qed.
+
+Lemma nodupb_ok l : nodupb l = true -> NoDup l.
+Proof.
+  induction l as [|x l IH]; simpl; intros H; constructor.
+  - apply andb_true_iff in H as [H _]. intros Hin. apply memb_in in Hin. rewrite Hin in H. discriminate.
+  - apply IH. apply andb_true_iff in H as [_ H]. exact H.
+Qed.
+
+Definition wf_progb (p : sprog) : bool :=
+  nodupb (all_lines p) && forallb ifs_ok_block (all_blocks p) &&
+  forallb (fun b => forallb (fun n => match find_sub (p_subs p) n with Some _ => true | None => false end)
+                            (targets_block b)) (all_blocks p).
+
+Lemma wf_progb_ok p : wf_progb p = true -> wf_prog p.
+Proof.
+  unfold wf_progb, wf_prog. intros H. apply andb_true_iff in H as [H H3]. apply andb_true_iff in H as [H1 H2].
+  split; [apply nodupb_ok; exact H1|]. split.
+  - intros b Hb. rewrite forallb_forall in H2. apply H2. exact Hb.
+  - intros b n Hb Hn. rewrite forallb_forall in H3. specialize (H3 b Hb).
+    rewrite forallb_forall in H3. specialize (H3 n Hn). destruct (find_sub (p_subs p) n); congruence.
+Qed.
